@@ -89,6 +89,13 @@ def cases(rng, tier, shard, nshards):
             yield {"k": "deep", "n": rng.choice([40, 250, 400, 1200]), "rt": rng.choice("OU"), "vlevel": rng.choice([0, 1]),
                    "what": rng.choice(["rm-segment", "rm-segment", "rm-inner-group", "write+validate"])}
             continue
+        if rng.random() < 0.03:
+            # the public parsers of field values (positions, alignments, arrays, oriented names, segment
+            # ends) take the same strings the fields take
+            pool = SYS_ATOMS + ["", "$", "5$", "5$$", "-1", " 5", "5 ", "\u0663", "1_0", "1M,", "1,2", "0a", "zz", "c,1", "f,",
+                                "i,1,x", "C,256", "f,1e999", "a+", "+", "a\tb", "\n", "1" * 5000, "(" * 3000]
+            yield {"k": "value-parsers", "atoms": [rng.choice(pool) for _ in range(12)] + [HG.hostile_line(rng)[:40] for _ in range(4)]}
+            continue
         if rng.random() < 0.06:
             # a line object of a valid document gets one of its fields re-assigned as a string which is
             # valid for that field but does not fit the rest of the line (a list of another length, the
@@ -269,6 +276,23 @@ def sweep_gfa(ctx, g, nb):
     guarded(ctx, "str(gfa)", nb, str, g)
 
 
+VALUE_PARSERS = [("LastPos", lambda s: gfapy.LastPos(s)), ("Alignment", lambda s: gfapy.Alignment(s)),
+                 ("Alignment(gfa1)", lambda s: gfapy.Alignment(s, version="gfa1")),
+                 ("Alignment(gfa2)", lambda s: gfapy.Alignment(s, version="gfa2")),
+                 ("ByteArray", lambda s: gfapy.ByteArray(s)), ("NumericArray.from_string", lambda s: gfapy.NumericArray.from_string(s)),
+                 ("posvalue", lambda s: gfapy.posvalue(s)), ("SegmentEnd", lambda s: gfapy.SegmentEnd(s)),
+                 ("OrientedLine", lambda s: gfapy.OrientedLine(s)), ("SegmentEnd.validate", lambda s: gfapy.SegmentEnd(s).validate()),
+                 ("OrientedLine.validate", lambda s: gfapy.OrientedLine(s).validate()), ("invert", lambda s: gfapy.invert(s))]
+
+
+def run_value_parsers(case, ctx):
+    for a in case["atoms"]:
+        for name, fn in VALUE_PARSERS:
+            guarded(ctx, name + "(str)", len(a.encode("utf8", "replace")), fn, a)
+            ctx.count("value_parser_calls")
+    ctx.nontriv(case["atoms"][:3])
+
+
 def run_edit_add(case, ctx):
     rng = random.Random(case["seed"])
     lines, version, vlevel = case["lines"], case["version"], case["vlevel"]
@@ -336,6 +360,8 @@ def run(case, ctx):
         return run_cli(case, ctx)
     if k == "edit-add":
         return run_edit_add(case, ctx)
+    if k == "value-parsers":
+        return run_value_parsers(case, ctx)
     if k == "deep":
         n, rt = case["n"], case["rt"]
         o = "+" if rt == "O" else ""
